@@ -32,6 +32,7 @@ type World struct {
 	Iface     map[string]*Contract // "Reader.IntValue"
 	ClauseFn  map[string]*ssa.Function
 	Models    map[string]string // full name of a library function -> model function in the spec file
+	Opaque    map[string]bool   // opaque specification functions
 	Overlay   map[string][]byte
 	LoadTime  time.Duration
 	specFiles map[string]bool
@@ -56,7 +57,7 @@ const (
 func Load(repo string, extraOverlay map[string][]byte) (*World, error) {
 	t0 := time.Now()
 	w := &World{Repo: repo, Pkgs: map[string]*ssa.Package{}, ByFunc: map[*ssa.Function]*Contract{}, ByID: map[string]*Contract{},
-		Iface: map[string]*Contract{}, ClauseFn: map[string]*ssa.Function{}, Models: map[string]string{}, Overlay: map[string][]byte{},
+		Iface: map[string]*Contract{}, ClauseFn: map[string]*ssa.Function{}, Models: map[string]string{}, Opaque: map[string]bool{}, Overlay: map[string][]byte{},
 		specFiles: map[string]bool{}}
 	for k, v := range extraOverlay {
 		w.Overlay[k] = v
@@ -177,6 +178,8 @@ func Load(repo string, extraOverlay map[string][]byte) (*World, error) {
 		w.ByID[c.Pkg+":"+c.FuncID] = c
 		switch {
 		case c.Lemma:
+		case c.OpaqueFn != "":
+			w.Opaque[c.OpaqueFn] = true
 		case c.ModelOf != "":
 			w.Models[c.ModelOf] = c.ModelFn
 		case c.Iface:
